@@ -10,8 +10,8 @@ ID = "C08"
 THM_MODULES = ["Minicbor.Thm.C08"]
 P = "Minicbor.C08."
 REQUIRED = [P + n for n in """sortP_perm sortP_sorted sortP_perm_eq frameArray_spec frameMap_spec
-derive_encode_spec derive_encode_names_irrelevant derive_encode_reorder_irrelevant derive_encode_reorder_variants
-spec_array_shape spec_map_shape derive_encode_deterministic""".split()]
+enc_spec fields_spec vars_spec derive_encode_spec enc_anon derive_encode_names_irrelevant derive_encode_reorder_irrelevant
+derive_encode_reorder_variants spec_array_shape spec_map_shape derive_encode_deterministic int_spec blob_spec with_spec isNil_spec""".split()]
 PACKAGES = ["dgen"]
 RULE = ("denc <type> <value>: every type definition drawn by verifkit/derivegen.py for the seed (a fixed core family covering every "
         "value-affecting attribute: index gaps / permutations, array|map at struct, enum and variant level, index_only, transparent, skip, tags at "
